@@ -465,6 +465,104 @@ def extract_orderings():
     return sites
 
 
+
+# ------------------------------------------------------------------ call skeletons
+# For the functions whose *order of operations* the models mirror step by step, the ordered list of
+# the calls that matter (syntactic order inside the function body, comments stripped). A change of
+# the order, an added or a dropped call breaks the tie theorem that compares it with the model.
+SKELETONS = [
+    ("signal-hook-registry/src/lib.rs", "register_unchecked_impl", [
+        ("data.write", r"\.data\s*\.write\s*\("), ("data.read", r"\.data\s*\.read\s*\("),
+        ("fallback.write", r"\.race_fallback\s*\.write\s*\("), ("fallback.read", r"\.race_fallback\s*\.read\s*\("),
+        ("clone", r"SignalData::clone\s*\("), ("Prev::detect", r"Prev::detect\s*\("),
+        ("Slot::new", r"Slot::new\s*\("), ("store", r"\.store\s*\(")]),
+    ("signal-hook-registry/src/lib.rs", "unregister", None),
+    ("signal-hook-registry/src/lib.rs", "unregister_signal", None),
+    ("signal-hook-registry/src/lib.rs", "handler", [
+        ("fallback.read", r"\.race_fallback\s*\.read\s*\("), ("data.read", r"\.data\s*\.read\s*\("),
+        ("data.write", r"\.data\s*\.write\s*\("), ("fallback.write", r"\.race_fallback\s*\.write\s*\("),
+        ("prev.execute", r"\.execute\s*\("), ("action", r"\baction\s*\(\s*info")]),
+    ("src/low_level/channel.rs", "send", [
+        ("dequeue.empty", r"dequeue\s*\(\s*&self\.empty"), ("dequeue.full", r"dequeue\s*\(\s*&self\.full"),
+        ("cell.write", r"\.get\s*\(\s*\)\s*=\s*Some"), ("cell.take", r"\.take\s*\("),
+        ("enqueue.full", r"enqueue\s*\(\s*&self\.full"), ("enqueue.empty", r"enqueue\s*\(\s*&self\.empty")]),
+    ("src/low_level/channel.rs", "recv", None),
+    ("src/iterator/backend.rs", "close", [
+        ("closed.store", r"\.closed\s*\.store\s*\("), ("wake", r"\.wake_readers\s*\(")]),
+    ("src/iterator/backend.rs", "poll_pending", [
+        ("is_closed", r"\.is_closed\s*\("), ("has_signals", r"\bhas_signals\s*\("),
+        ("pending", r"\.pending\s*\("), ("flush", r"\.flush\s*\(")]),
+    ("src/iterator/backend.rs", "pending", None),
+    ("src/iterator/backend.rs", "poll_signal", [
+        ("is_closed", r"\.is_closed\s*\("), ("iter.next", r"\.iter\s*\.next\s*\("),
+        ("poll_pending", r"\.poll_pending\s*\("), ("flush", r"\.flush\s*\("), ("pending", r"\.pending\s*\(")]),
+]
+
+
+def fn_body(src, name, occurrence=0):
+    """text of the body of the `occurrence`-th `fn name` (brace matched)"""
+    ms = list(re.finditer(r"\bfn\s+%s\b" % re.escape(name), src))
+    if len(ms) <= occurrence:
+        raise ExtractError("fn %s not found" % name)
+    i = src.find("{", ms[occurrence].end())
+    # skip a `where` clause / return type: the first `{` at generic depth 0 after the signature
+    depth = 0; j = ms[occurrence].end(); start = None
+    while j < len(src):
+        ch = src[j]
+        if ch in "(<[":
+            depth += 1
+        elif ch in ")>]":
+            if ch == ">" and src[j - 1] == "-":
+                pass
+            else:
+                depth -= 1
+        elif ch == "{" and depth <= 0:
+            start = j; break
+        elif ch == ";" and depth <= 0:
+            raise ExtractError("fn %s has no body" % name)
+        j += 1
+    if start is None:
+        raise ExtractError("fn %s: no body" % name)
+    d = 0; k = start
+    while k < len(src):
+        if src[k] == "{":
+            d += 1
+        elif src[k] == "}":
+            d -= 1
+            if d == 0:
+                return src[start:k + 1]
+        k += 1
+    raise ExtractError("fn %s: unbalanced" % name)
+
+
+def extract_skeletons():
+    out = []
+    last = None
+    for rel, fn, toks in SKELETONS:
+        toks = toks if toks is not None else last
+        last = toks
+        src = strip_comments(read(rel))
+        cut = src.find("#[cfg(test)]")
+        if cut >= 0:
+            src = src[:cut]
+        # the action closure of the iterator / the inherent `pending` are the last definitions
+        occ = 0
+        if fn == "handler":
+            # the non-windows dispatcher is the definition whose signature mentions `siginfo_t`
+            sigs = [m for m in re.finditer(r"\bfn\s+handler\b[^{]*", src)]
+            occ = next((i for i, m in enumerate(sigs) if "siginfo_t" in m.group(0)), None)
+            if occ is None:
+                raise ExtractError("non-windows fn handler not found")
+        body = fn_body(src, fn, occ)
+        found = []
+        for label, rx in toks:
+            for m in re.finditer(rx, body):
+                found.append((m.start(), label))
+        found.sort()
+        out.append((rel, fn, [l for _, l in found]))
+    return out
+
+
 ORD = {"Relaxed": ".relaxed", "Acquire": ".acquire", "Release": ".release", "AcqRel": ".acqRel",
        "SeqCst": ".seqCst"}
 
@@ -591,6 +689,14 @@ def main():
         s["file"], s["fn"], s["ordinal"], s["method"], ", ".join(ORD[o] for o in s["orderings"])) for s in sites))
     lines.append("]\n\nend SigHook.Gen\n")
     write_if_changed(os.path.join(OUT, "Orderings.lean"), "\n".join(lines))
+    # Skeletons
+    skels = attempt("skeleton", extract_skeletons, [])
+    lines = [hdr, "namespace SigHook.Gen\n",
+             "/-- ordered calls inside the functions whose step order the models mirror: (file, fn, calls) -/",
+             "def skeleton : List (String × String × List String) := ["]
+    lines.append(",\n".join('  ("%s", "%s", [%s])' % (f_, n_, ", ".join('"%s"' % c for c in cs)) for f_, n_, cs in skels))
+    lines.append("]\n\nend SigHook.Gen\n")
+    write_if_changed(os.path.join(OUT, "Skeleton.lean"), "\n".join(lines))
     with open(SITES, "w") as f:
         json.dump({"sites": sites, "platform": plat}, f, indent=1, sort_keys=True)
     with open(SITES.replace(".json", ".txt"), "w") as f:
